@@ -11,12 +11,13 @@ open Rpft
 
 def initSt (noArgs testTypes : List Str) : St := { noArgs := noArgs, testTypes := testTypes }
 
-theorem ainv_init (h : Prop) (noArgs testTypes : List Str) : AInv h (initSt noArgs testTypes) := by
-  refine ⟨?_, fun _ => ⟨?_, ?_, ?_⟩⟩
+theorem ainv_init (h : Flags) (noArgs testTypes : List Str) : AInv h (initSt noArgs testTypes) := by
+  refine ⟨?_, fun _ => ⟨?_, ?_, ?_⟩, ?_⟩
   · intro i n hn; simp [initSt] at hn
   · intro i n hn; simp [initSt] at hn
   · intro i n hn; simp [initSt] at hn
   · intro i j n m x hn; simp [initSt] at hn
+  · intro _ i n hn; simp [initSt] at hn
 
 /-- what a successful compilation is: the final state of the machine and the emitted nodes -/
 theorem compile_ok {noArgs testTypes : List Str} {evs : List Event} {out : Out}
@@ -34,8 +35,8 @@ theorem compile_ok {noArgs testTypes : List Str} {evs : List Event} {out : Out}
       injection h with h
       rw [← h]
 
-theorem final_ainv (h : Prop) {noArgs testTypes : List Str} {evs : List Event} {s : St}
-    (hid : h → noIdsL evs = true)
+theorem final_ainv (h : Flags) {noArgs testTypes : List Str} {evs : List Event} {s : St}
+    (hid : EvsOk h evs)
     (hr : (steps evs).run (initSt noArgs testTypes) = .ok ((), s)) : AInv h s :=
   (wp_of_run (steps_spec h evs hid _ (ainv_init h noArgs testTypes) trivial) hr).1
 
@@ -92,7 +93,7 @@ theorem compile_dests_resolve_arena {noArgs testTypes : List Str} {evs : List Ev
     (hn : n ∈ l.filterMap fun i => s.nodes[i]?) {e : Flow.Exit} {d : Flow.Id}
     (he : e ∈ (renderNode n).exits) (hd : e.dest = some d) :
     ∃ (i : Nat) (m : NodeM), s.nodes[i]? = some m ∧ m.uid = d := by
-  have a := final_ainv False (fun hf => hf.elim) hr
+  have a := final_ainv Flags.none ⟨fun hf => hf.elim, fun hf => hf.elim⟩ hr
   obtain ⟨i, hi⟩ := out_nodes_arena hn
   exact (a.ok i n hi).dests _ (rendered_dest he hd)
 
